@@ -11,8 +11,8 @@ from harness import fw
 
 META = {
     "id": "C14",
-    "technique": "Coq proof (structural induction over the nested IR skeleton: deep walk of _collect_required_libraries vs. the emitter's top-level scans) + extracted-model correspondence with the real parse/_collect_required_libraries/emit on exhaustively enumerated device multiplicities and positions + property oracle on lib list / #include lines / global object definitions / g++ link against the mock library headers",
-    "level_text": "Theorems C14_* (coq/Props/C14.v) hold for all programs of a Gallina model (coq/Tool/Libs.v) of _collect_required_libraries and of the emitter's include flags and global object definitions; the model is run against the real functions on every multiplicity 0..3 of {Servo, parallel LCD, I2C LCD} x other devices x permitted and non-permitted positions, and every emitted sketch inside the quantifier is compiled and linked.",
+    "technique": "Coq proof (structural induction over the nested IR skeleton: deep walk of _collect_required_libraries vs. the emitter's top-level scans; text model of the emitted object definitions / initialisation lines with injectivity of the generated identifiers; invariant proof that the emitter's name -> display-object resolution is the latest-binding semantics) + class->header / declaration->library tables regenerated from emitter.py and __init__.py by a fail-closed translator and pinned by a theorem + extracted-model correspondence with the real parse/_collect_required_libraries/emit (library lists, #include lines, every library-object line of the global section, the initialisation lines of setup(), the receiver object of every emitted LCD command) on exhaustively enumerated device multiplicities / positions / binding-and-command sequences and seeded random declarations + property oracle on lib list / #include lines / global object definitions / g++ link against the mock library headers",
+    "level_text": "Theorems C14_* (coq/Props/C14.v) hold for all programs of a Gallina model (coq/Tool/Libs.v, coq/Tool/LibObjs.v) of _collect_required_libraries, of the emitter's include flags, of the text of its Servo / LiquidCrystal / LiquidCrystal_I2C object definitions and initialisation calls (constructor arguments, cols/rows, backlight pin) and of its name -> current display object resolution; the model is run against the real functions on every multiplicity 0..3 of {Servo, parallel LCD, I2C LCD} x other devices x permitted and non-permitted positions, on binding/command sequences and on random declarations with varied arguments, and sketches inside the quantifier are compiled and linked.",
     "level_note": "Trusted: Coq kernel, extraction, OCaml driver, the skeleton walker in harness/impl/c14_impl.py, the regexes that read #include lines and object definitions from the emitted text, g++ and the mock library headers. The theorems are about the model; the correspondence bounds its distance from __init__.py / emitter.py.",
     "design_ref": "DESIGN.md section 4 C14",
 }
@@ -765,6 +765,12 @@ def object_correspondence(ctx, c, r, m, incs, dist):
         ok = False
         ctx.disagree("#include lines: model on the erased items vs emit", case_rep, hdr, incs)
     dist["objects:lcds_at_top:" + str(at_top)] += 1
+    if c["cat"] == "in" and follow != 1:
+        ok = False
+        ctx.disagree("the IR of a script inside the quantifier holds an LCD command before the first top-level declaration of its variable (assumed not to be produced by the parser: guard cmds_follow_decl)", case_rep, None, None)
+    if c["cat"] == "in" and at_top != 1:
+        ok = False
+        ctx.disagree("a script inside the quantifier is parsed to an IR outside the guard lcds_at_top of C14_resolution_is_latest_binding", case_rep, None, None)
     if at_top == 1 and follow == 1:
         # inside the guard of C14_resolution_is_latest_binding the emitted receivers are the reference semantics
         if not same_receivers(spec_s, real_rs) or not same_receivers(spec_l, real["loop"]):
@@ -1026,26 +1032,33 @@ def run(ctx: C.Ctx):
     ctx.coverage.update({
         "evaluations": n_eval,
         "distinct_nontrivial": len(nontrivial),
-        "rule": "scripts enumerated exhaustively: multiplicities 0..3 of Servo x parallel LCD x I2C LCD, other devices present/absent, servo placement before the loop / top of the loop body / split, with and without a main loop, declaration order rotating over 4 orders; same-name re-declarations; an LCD variable bound to one and then to the other interface (the witness shapes of the repaired finding F-C14-lcd-rebind, with further LCDs / a Servo around) and every sequence of 2..4 bindings of the variables a, b to parallel / I2C displays that binds some variable again (thorough: all 164; quick: all of length 2, half of length 3, 8 seeded of length 4), constructor spellings, other devices, Servo and main loop rotating - all inside the quantifier, judged by the oracle and compiled; step 0 replays the witnesses of the repaired findings first; outside the quantifier (correspondence only): each kind nested in if/elif/else/while/for/try/except/function/2-deep in setup and in the loop, LCDs in the loop body, servos in the loop body after other statements, declarations after the loop. quick = stratified seeded subsample. distinct non-trivial = distinct IR skeletons for which at least one library is requested or included",
+        "rule": "scripts enumerated exhaustively: multiplicities 0..3 of Servo x parallel LCD x I2C LCD, other devices present/absent, servo placement before the loop / top of the loop body / split, with and without a main loop, declaration order rotating over 4 orders; same-name re-declarations; an LCD variable bound to one and then to the other interface (the witness shapes of the repaired finding F-C14-lcd-rebind, with further LCDs / a Servo around) and every sequence of 2..4 bindings of the variables a, b to parallel / I2C displays that binds some variable again (thorough: all 164; quick: all of length 2, half of length 3, 8 seeded of length 4), constructor spellings, other devices, Servo and main loop rotating - all inside the quantifier, judged by the oracle and compiled; step 0 replays the witnesses of the repaired findings first; outside the quantifier (correspondence only): each kind nested in if/elif/else/while/for/try/except/function/2-deep in setup and in the loop, LCDs in the loop body, servos in the loop body after other statements, declarations after the loop. quick = stratified seeded subsample. Growth round: (objects:random) seeded random scripts of 2..10 steps - Servo / parallel / I2C LCD declarations with randomly chosen constructor spellings and arguments (positional / keyword / shuffled, rw, backlight pins, five geometries and folding expressions, run-time expressions as pin or address, float pulse bounds with halves and a negative one, zero-valued arguments), LCD variables a/b/c re-bound, one-line LCD commands (write/line/clear/progress) at the top level and inside if/else/for/while bodies, in the loop body and in a function; (objects:resolution) every valid sequence of length 1..3 (quick: plus 40 of length 4 and 30 longer; thorough: all of length 4 and 400 longer) over {declare a parallel, declare a I2C, declare b parallel, command on a, command on b, if-body command on a, for-body command on b}; (decoy) strings / variables / Led / DCMotor / Buzzer identifiers whose text contains Servo, LiquidCrystal, LiquidCrystal_I2C or an #include line, with every subset of real devices; (zero-valued-arguments) bus address 0 / 0x00 / constant expressions folding to 0, pin 0, rw=0, backlight_pin=0, cols/rows 0, Servo(0), zero pulse bounds. For every accepted script whose IR holds only one-line LCD commands the extracted object model is compared with the emitted text: global library-object lines (exact list), initialisation lines of setup() (exact prefix of the library-object lines of setup()), receiver object and cols variable of every command line of setup(), loop() and the function bodies; inside the guard of C14_resolution_is_latest_binding the receivers are also compared with the reference semantics. distinct non-trivial = distinct IR skeletons for which at least one library is requested or included, plus distinct argument-carrying item trees whose object comparison ran",
         "samples": [cases[0]["src"], cases[len(cases) // 3]["src"], cases[-1]["src"]],
         "distribution": dict(dist, scripts=len(cases), inside_quantifier=n_in, compiled_and_linked=sum(1 for v in compiled.values() if v["compiled"]),
                              outside_quantifier_guard=dict(nested_seen),
                              outside_quantifier_relation_observed={k: dict(v) for k, v in sorted(observed.items())}),
         "exhaustive": ctx.tier == "thorough",
-        "guard": "the property's quantifier only: LCDs declared before the main loop (top level), servos before it or at the top of its body. No finding of this property is open: the region F-C14-lcd-rebind used to exclude (an LCD variable bound to both interfaces) is generated and judged. Model guard decls_at_documented_positions (extracted) is evaluated on the real IR of every script and must be true inside the quantifier.",
+        "guard": "the property's quantifier only: LCDs declared before the main loop (top level), servos before it or at the top of its body. No finding of this property is open: the region F-C14-lcd-rebind used to exclude (an LCD variable bound to both interfaces) is generated and judged. Model guard decls_at_documented_positions (extracted) is evaluated on the real IR of every script and must be true inside the quantifier; so must the guards lcds_at_top and cmds_follow_decl of C14_resolution_is_latest_binding (both on every script inside the quantifier).",
         "fixed_findings_replayed": sorted(f["id"] for f in local_findings(ctx) if f.get("kind") == "fixed"),
         "regressed": sorted(regressed),
-        "unmodelled": ["the text of the object definitions beyond class, variable name and binding index (constructor arguments)",
-                       "which display object the commands after a re-binding address (the emitter switches to the object of the declaration it passes: observed by hand on the mock, not part of this property)",
+        "unmodelled": ["the servo calibration globals (float __servo_min_angle_<n> = static_cast<float>(0.0); ... - their text needs Python's repr of floats); the object line, attach and writeMicroseconds lines of a servo are modelled",
+                       "the argument text of the LCD command lines beyond receiver object and cols variable; LCD commands that emit several lines (message, display, backlight, brightness, glyph, animate, tick) - scripts holding them skip the object comparison (counted)",
+                       "which display a function body addresses when the function is called between two bindings of the variable (the emitter uses the latest binding of the whole script: modelled as is, C14_resolution_is_latest_binding states exactly that; Python's run-time answer may differ - not part of this property)",
+                       "a servo variable bound twice is attached once, with the arguments of its first declaration (theorem C14_servo_rebind_first_wins_remark; not part of this property)",
                        "PlatformIO's library resolution itself (the check stops at the lib_deps section text)",
                        "real Arduino library headers (mock headers: LiquidCrystal_I2C.h includes LiquidCrystal.h and does not need Wire.h, so those two omissions are visible only textually)",
                        "IR shapes the parser cannot produce (LCDDecl.interface other than parallel/i2c; declarations inside global_decls) - flagged as unencodable if they appear"],
         "trusted_base": C.COMMON_TRUSTED + ["harness/impl/c14_impl.py (walks the real Program dataclasses into the model's node encoding; calls parse, _collect_required_libraries, emit, pio._format_lib_section)",
                                             "harness/props/c14.py regexes INC_RE / OBJ_RE / LCD_ID_RE reading #include lines, global object definitions and the binding index in an LCD object identifier",
+                                            "harness/props/c14.py read_objects (GLOBAL_LINE_RE, SERVO_INIT_RE, the per-script identifier regex built from the LCD variable names and backlight pins of the IR) splitting the emitted sketch into global lines / setup() / loop() / function bodies",
+                                            "harness/impl/c14_impl.py Items (walks the real Program dataclasses into the argument-carrying item encoding of coq/Wire/C14W.v case 1)",
+                                            "harness/gen/c14_libs.py (ast walk of emit() and _collect_required_libraries printing coq/Gen/LibTable.v; an unrecognised shape prints a sentinel row that C14_tables_are_the_models rejects)",
                                             "g++ -std=gnu++17 and mock/ (Servo.h, LiquidCrystal.h, LiquidCrystal_I2C.h, Wire.h)"],
     })
     ctx.assumptions += ["variable names are distinct per declared device unless a case says otherwise (names are numbered by first occurrence in the IR walk)",
-                        "the parser produces LCDDecl.interface in {parallel, i2c} only (checked on every case)"]
+                        "the parser produces LCDDecl.interface in {parallel, i2c} only (checked on every case)",
+                        "no user global line coincides textually with a library-object line (the emitter de-duplicates globals_ by line text; the model de-duplicates among the library-object lines only)",
+                        "the parser drops an LCD command that precedes the first declaration of its variable (guard cmds_follow_decl of C14_resolution_is_latest_binding; evaluated by the extracted model on every real IR and counted)"]
 
 
 def replay(data):
